@@ -742,16 +742,19 @@ bool template_t::is_invariant() const
 std::ostream& chan_priority_t::print(std::ostream& os) const
 {
     os << "chan priority ";
-    auto head_s = head.str();
-    if (head_s.empty())
-        head_s = "default";
-
-    os << head_s;
+    // the "default" entry is stored as an empty expression, which cannot be printed
+    if (head.empty())
+        os << "default";
+    else
+        head.print(os);
     for (const auto& [ch, expr] : tail) {
         if (ch == '<')
             os << ' ';
         os << ch << ' ';
-        expr.print(os);
+        if (expr.empty())
+            os << "default";
+        else
+            expr.print(os);
     }
     return os;
 }
